@@ -76,13 +76,18 @@ pub const PASSWORD: &str = "correct horse battery staple";
 
 /// Start the real server (default TCP proxy handler) on a fresh port of this worker's address.
 pub async fn start_real_server(scheme: &str) -> Result<SocketAddr, Fail> {
+    start_real_server_with(scheme, PASSWORD).await
+}
+
+/// The real server configured with this password.
+pub async fn start_real_server_with(scheme: &str, password: &str) -> Result<SocketAddr, Fail> {
     let ip = IpAddr::V4(worker_ip());
     let port = free_port(ip)?;
     let addr = SocketAddr::new(ip, port);
     let cfg = anytls_rs::util::tls::create_server_config().map_err(|e| infra(format!("server tls config: {e}")))?;
     let acceptor = Arc::new(tokio_rustls::TlsAcceptor::from(cfg));
     let padding = Arc::new(PaddingFactory::new(scheme.as_bytes()).map_err(infra)?);
-    let server = Server::new(PASSWORD, acceptor, padding, None);
+    let server = Server::new(password, acceptor, padding, None);
     let a = addr.to_string();
     tokio::spawn(async move {
         let _ = server.listen(&a).await;
